@@ -244,7 +244,9 @@ REDUCERS = {
     "builtin-sum": (sum, lambda A, ax: A.sum(axis=ax), False),
     "np.max": (np.max, lambda A, ax: A.max(axis=ax), True),
     "np.min": (np.min, lambda A, ax: A.min(axis=ax), True),
-    "sumsq-dot": (lambda v: v.dot(v), lambda A, ax: (A * A).sum(axis=ax), False),
+    # (a reducer of the caller's: it converts first, so that narrow integer data does not wrap around in *its* arithmetic)
+    "sumsq-dot": (lambda v: np.asarray(v, dtype=float).dot(np.asarray(v, dtype=float)), lambda A, ax: (A * A).sum(axis=ax),
+                  False),
     "sumsq-np": (lambda v: np.sum(v * v), lambda A, ax: (A * A).sum(axis=ax), False),
 }
 DENSE_REDUCERS = ("default", "np.sum", "np.max", "np.min", "sumsq-dot")
